@@ -1,11 +1,13 @@
 """C07 - decided on the channel state machine (Model/Chan.v, Model/ChanProps.v)."""
 from harness.chandrv import ChanDriver
+from harness import concdrv
 
 
 class Driver(ChanDriver):
     PID = 'C07'
     PROP = '(fun i o => c07_ok i o && c07_isolation_ok i o)'
     PROFILES = [('errors', 150, 2000), ('rpc', 40, 400), ('confirm', 40, 400)]
+    CONC = [('chclose', concdrv.gen_chclose, 'conc_chclose_ok', 40, 600)]
     RULE = ("scenarios from the profiles ['errors', 'rpc', 'confirm'] of harness/changen.py: sequences of "
             'application operations on 1-3 channels, each with a script of '
             'inbound frame batches (replies, deliveries, returns, cancels, '
